@@ -235,6 +235,7 @@ pub fn build_model(g: &GraphSpec) -> (Model, Names)
         rule_files,
         render: RenderOpts { bundle: g.bundle, perm_seed: g.render_seed as u64, blank_between: 1 + (g.render_seed as usize % 3), leading_blank: g.render_seed as usize % 2, final_newline: g.render_seed % 5 != 0 },
         dirs: if g.dirs { vec!["d0".to_string(), "d1/sub".to_string()] } else { vec![] },
+        missing_dirs: BTreeSet::new(),
     };
     (model, names)
 }
@@ -266,6 +267,9 @@ pub enum Op
     DeleteCache,
     DeleteTable,
     DeleteHistoryFile { k: u16 },
+    /// the user removes a whole workspace directory (with everything in it) / creates it again
+    RemoveDir { d: u16 },
+    MakeDir { d: u16 },
 }
 
 impl Op
@@ -299,6 +303,8 @@ impl Op
             Op::DeleteCache => "delete-cache",
             Op::DeleteTable => "delete-table",
             Op::DeleteHistoryFile { .. } => "delete-history-file",
+            Op::RemoveDir { .. } => "remove-dir",
+            Op::MakeDir { .. } => "make-dir",
         }
     }
 
@@ -316,13 +322,14 @@ pub struct OpMix
     pub cleans: bool,
     pub delete_leaf: bool,
     pub swaps: u32,
+    pub dir_ops: u32,
 }
 
 impl OpMix
 {
     pub fn full() -> OpMix
     {
-        OpMix { rule_edits: true, ruler_dir_damage: true, cleans: true, delete_leaf: false, swaps: 1 }
+        OpMix { rule_edits: true, ruler_dir_damage: true, cleans: true, delete_leaf: false, swaps: 1, dir_ops: 1 }
     }
 }
 
@@ -358,6 +365,8 @@ pub fn op(mix: OpMix) -> impl Strategy<Value = Op>
         (dm, Just(Op::DeleteCache).boxed()),
         (dm, Just(Op::DeleteTable).boxed()),
         (dm, any::<u16>().prop_map(|k| Op::DeleteHistoryFile { k }).boxed()),
+        (mix.dir_ops, any::<u16>().prop_map(|d| Op::RemoveDir { d }).boxed()),
+        (2 * mix.dir_ops, any::<u16>().prop_map(|d| Op::MakeDir { d }).boxed()),
     ];
     proptest::strategy::Union::new_weighted(all.into_iter().filter(|(w, _)| *w > 0).collect::<Vec<_>>())
 }
